@@ -201,6 +201,25 @@ pub fn alphabet_by_name(name: &str) -> Option<Alphabet> {
     }
 }
 
+/// Number of bytes the derived Hash of a value feeds to a hasher: a model-independent measure of the size of
+/// the real object (buffers and pages dominate). Used as a second, generous size bound so that an
+/// implementation whose hidden buffers grow without limit still yields a finite search.
+#[derive(Default)]
+pub struct CountingHasher(pub u64);
+impl std::hash::Hasher for CountingHasher {
+    fn finish(&self) -> u64 {
+        self.0
+    }
+    fn write(&mut self, bytes: &[u8]) {
+        self.0 += bytes.len() as u64;
+    }
+}
+pub fn hashed_size<T: std::hash::Hash>(v: &T) -> u64 {
+    let mut h = CountingHasher::default();
+    v.hash(&mut h);
+    h.0
+}
+
 #[derive(Clone, Copy, PartialEq, Eq, Debug)]
 pub enum Oracle {
     /// C12: no unwind; a count message in a receiving state ends in received/failed.
@@ -250,7 +269,11 @@ impl System for SignSys {
         !self.alpha.cfg_only[a] || s.real.state() == State::ConfigInProgress
     }
     fn within_bounds(&self, s: &SignState) -> bool {
-        s.model.buf.len() <= self.alpha.max_buf && s.model.count <= self.alpha.max_count && s.model.pages.len() <= self.alpha.max_pages && s.real.pages().len() <= self.alpha.max_pages
+        s.model.buf.len() <= self.alpha.max_buf
+            && s.model.count <= self.alpha.max_count
+            && s.model.pages.len() <= self.alpha.max_pages
+            && s.real.pages().len() <= self.alpha.max_pages
+            && hashed_size(&s.real) <= 256 + 2 * (self.alpha.max_buf as u64 + 64) * (self.alpha.max_pages as u64 + 2)
     }
     fn action_json(&self, a: usize) -> Value {
         json!(msg_str(&self.alpha.msgs[a]))
@@ -262,8 +285,8 @@ impl System for SignSys {
         let m = &self.alpha.msgs[a];
         let mut real = s.real.clone();
         let mut model = s.model.clone();
-        let before = model.state;
-        let was_receiving = model.receiving();
+        let before = if self.oracle == Oracle::NoPanic { s.real.state() } else { model.state };
+        let was_receiving = matches!(before, State::ConfigInProgress | State::PixelsInProgress);
         let r = catch(|| real.process_message(m).map(|x| own(&x)));
         let (want_reply, open) = model.step(m);
         let mut viol = vec![];
@@ -476,7 +499,7 @@ impl System for BusSys {
     }
     fn within_bounds(&self, s: &BusState) -> bool {
         s.shadow.iter().all(|m| m.buf.len() <= self.cfg.max_buf && m.count <= self.cfg.max_count && m.pages.len() <= self.cfg.max_pages)
-            && (0..s.iso.len()).all(|i| s.bus.sign(i).pages().len() <= self.cfg.max_pages)
+            && (0..s.iso.len()).all(|i| s.bus.sign(i).pages().len() <= self.cfg.max_pages && hashed_size(s.bus.sign(i)) <= 256 + 2 * (self.cfg.max_buf as u64 + 64) * (self.cfg.max_pages as u64 + 2))
     }
     fn action_json(&self, a: usize) -> Value {
         json!(msg_str(&self.cfg.msgs[a]))
